@@ -184,6 +184,20 @@ def run(ck):
         else:
             ck.note('output stream on %s at %s is not part of the fetch command' % (f.text(args[0]) if args else '?', f.loc(i)))
     ck.floor('C30.own', 'output-file writers of the fetch command', len(fetch_writers), 1)
+    # the output path is never produced by a filesystem-level copy / move / link: such a file's bytes were never hashed here
+    FS_PRODUCERS = ('std::filesystem::copy_file', 'std::filesystem::copy', 'std::filesystem::rename', 'std::filesystem::create_hard_link',
+                    'std::filesystem::create_symlink', 'rename', 'std::rename', 'link', 'symlink')
+    fs_made = []
+    for f in scope:
+        for i in f.walk():
+            c = f.nodes[i].get('callee') or ''
+            if c in FS_PRODUCERS:
+                a = f.call_args(i)
+                if len(a) >= 2 and any(f.nodes[j]['k'] == 'DeclRefExpr' and f.nodes[j].get('n') == 'resolved_output' for j in f.walk(a[1])):
+                    fs_made.append((f, i, c))
+    ck.ob('C30.own', 'C30.own/no-filesystem-level-producer', not fs_made, fs_made[0][0].loc(fs_made[0][1]) if fs_made else '',
+          'the fetch command never creates its output by copying, renaming or linking another file onto it (bytes that were not hashed against the manifest)'
+          + ('' if not fs_made else ' — %s' % fs_made[0][2]))
 
     for f, w, kind in fetch_writers:
         key = 'C30.gate/%s' % f.name
